@@ -117,6 +117,10 @@ fn list_ops(kind: usize) -> Vec<Op> {
         let target = l.get(1).cloned();
         out.push(show_maybe(l.iter().find(|y| Some((*y).clone()) == target)));
     })));
+    ops.push(mk("do\n        ll :: l\n        print(list.find(ll, pu y -> list.get(ll, 0) != (Maybe.Just y) end))\n    end".into(), "find(get-other)", std::sync::Arc::new(|l, out| {
+        let first = l.first().cloned();
+        out.push(show_maybe(l.iter().find(|y| Some((*y).clone()) != first)));
+    })));
     ops.push(mk("do\n        ll :: l\n        print(filter(ll, pu y -> list.get(ll, 0) != (Maybe.Just y) end))\n    end".into(), "filter(get)", std::sync::Arc::new(|l, out| {
         let first = l.first().cloned();
         out.push(show_list(&l.iter().filter(|y| Some((*y).clone()) != first).cloned().collect::<Vec<_>>()));
